@@ -144,6 +144,18 @@ Theorem c03_vars_survive_context : forall ps claims c,
 Proof. exact vars_survive. Qed.
 Print Assumptions c03_vars_survive_context.
 
+(* ---- CORS enabled (WithCors / WithCustomCors) ---- *)
+(* only OPTIONS requests are preflights (answered 204 by the cors layer); every other request is
+   routed exactly as without CORS, whatever headers it carries (the headers are not an input of
+   cors_serve): a handler runs iff a registered pattern of the method matches *)
+Theorem c03_cors_transparent : forall regs m p,
+  (m <> "OPTIONS"%string ->
+     cors_serve (build regs) m p = CRouted (route_req (build regs) m p) /\
+     ((exists rs, cors_serve (build regs) m p = CRouted (Hit rs)) <-> has_match (registered regs) m p)) /\
+  cors_serve (build regs) "OPTIONS" p = CPreflight.
+Proof. intros regs m p. split; [apply cors_transparent|apply cors_preflight]. Qed.
+Print Assumptions c03_cors_transparent.
+
 (* ---- non-vacuity ---- *)
 Definition b (s : string) : list N := map (fun a => N.of_nat (Ascii.nat_of_ascii a)) (list_ascii_of_string s).
 Definition ex_regs : list reg :=
